@@ -170,7 +170,7 @@ var numeralZoo = []string{"0", "1", "42", "007", "3.14", "3.", ".5", "1e3", "1E-
 var stringZoo = []string{`"plain"`, `'single'`, `"esc\n\t\\\"q"`, `'it\'s'`, `"\65\066\x41"`, `"\u{48}\u{20AC}\u{1F600}"`, `"a\z
    b"`, "\"line\\\ncont\"", `""`, `''`, `[[long]]`, "[[\nfirst newline skipped]]", `[==[with ]] and ]=] inside]==]`, `[=[
 multi
-line]=]`, `"tab	inside"`, `"é中😀"`, `'\a\b\f\v\r'`, `"\0\00\000"`, `"\255"`}
+line]=]`, `"tab	inside"`, `"é中😀"`, `'\a\b\f\v\r'`, `"\0\00\000"`, `"\255"`, "[[\n  欢迎使用 ]]", "[==[é\n中文 😀 ]==]", "[=[\n\nтекст]=]"}
 
 // GenNumeral draws a valid numeral of the supported language: decimal / hexadecimal integers of any magnitude around the
 // 32-, 53-, 63- and 64-bit boundaries, decimal and hexadecimal floats with exponents, and LuaJIT 64-bit literals (LL / ULL
